@@ -37,6 +37,7 @@ class Value:
         self.handled = False
 
         self._value = None
+        self._several = False  # True once _value is the list of several results
 
     def __getstate__(self):
         odict = self.__dict__.copy()
@@ -95,13 +96,17 @@ class Value:
         if isinstance(value, Value):
             value.parent = self
 
-        if self.result and isinstance(self._value, list):
+        # Whether _value is "the list of results" is remembered, not guessed
+        # from its type: a result may be a list itself.
+        if self.result and self._several:
             self._value.append(value)
         elif self.result:
             self._value = [self._value]
             self._value.append(value)
+            self._several = True
         else:
             self._value = value
+            self._several = False
 
         def update(o, v):
             if isinstance(v, Value):
